@@ -56,6 +56,28 @@ thread_local! {
     static LAST_PANIC: RefCell<Option<String>> = const { RefCell::new(None) };
 }
 
+/// Generic no-progress watchdog: if the evaluation counter of `ctx` does not move for `secs`
+/// seconds the process exits with status 2 (inconclusive) - a check must never hang forever.
+pub fn start_progress_watchdog(ctx: &'static Ctx, secs: u64) {
+    std::thread::spawn(move || {
+        let mut last = (ctx.evals(), ctx.violation_count(), Instant::now());
+        loop {
+            std::thread::sleep(std::time::Duration::from_millis(500));
+            let now = (ctx.evals(), ctx.violation_count());
+            if (now.0, now.1) != (last.0, last.1) {
+                last = (now.0, now.1, Instant::now());
+            } else if last.2.elapsed().as_secs() >= secs {
+                println!("INCONCLUSIVE: no progress for {secs}s (a call into the library does not return, or the harness is stuck); evaluations so far {}", now.0);
+                if let Some(h) = ctx.hang_hook.lock().unwrap().as_ref() {
+                    h();
+                }
+                ctx.inconclusive(&format!("no progress for {secs}s"));
+                std::process::exit(ctx.finish());
+            }
+        }
+    });
+}
+
 pub fn install_silent_panic_hook() {
     std::panic::set_hook(Box::new(|info| {
         let loc = info.location().map(|l| format!("{}:{}", l.file(), l.line())).unwrap_or_default();
@@ -180,6 +202,8 @@ pub struct Ctx {
     assumptions: Mutex<Vec<String>>,
     exhaustive: AtomicBool,
     inconclusive: Mutex<Vec<String>>,
+    /// called by the progress watchdog before it gives up (a check may turn a hang into a violation)
+    pub hang_hook: Mutex<Option<Box<dyn Fn() + Send + Sync>>>,
 }
 
 pub const MAX_SAMPLES: usize = 10;
@@ -207,6 +231,7 @@ impl Ctx {
             assumptions: Mutex::new(Vec::new()),
             exhaustive: AtomicBool::new(false),
             inconclusive: Mutex::new(Vec::new()),
+            hang_hook: Mutex::new(None),
         }
     }
     pub fn eval(&self) {
@@ -398,7 +423,8 @@ pub fn new_runner(seed: u64, name: &str, shard: u64, cases: u32) -> TestRunner {
     let cfg = Config {
         cases,
         failure_persistence: None,
-        max_shrink_iters: 4000,
+        max_shrink_iters: 20000,
+        max_shrink_time: 20_000,
         max_global_rejects: 1_000_000,
         ..Config::default()
     };
